@@ -323,6 +323,154 @@ Definition diff_seq (d : diff) : list rr :=
 Definition ixfr_seq (snew : N) (ds : list diff) : list rr :=
   Soa snew :: concat (map diff_seq ds) ++ [Soa snew].
 
+(* ---- the stream client's end-of-transfer detection:
+   net/client/stream.rs check_stream / XFRState (per response message; the
+   is_answer and RCODE branches are C15's: here the message answers the request
+   with NOERROR).  It compares SOA serials only (soa_serial of the abstract id).
+   Result: (eof, new state). *)
+Inductive cstate :=
+| CAxfrInit | CAxfrFirstSoa (s : N) | CIxfrInit | CIxfrFirstSoa (s : N)
+| CIxfrFirstDiffSoa (s : N) | CIxfrSecondDiffSoa (s : N) | CDone | CError.
+
+(* one record: inl = keep iterating, inr = early return (eof, state) *)
+Definition client_rec (st : cstate) (r : rr) : cstate + (bool * cstate) :=
+  match st, r with
+  | CAxfrInit, Soa x => inl (CAxfrFirstSoa (soa_serial x))
+  | CAxfrInit, Other _ => inr (false, CError)
+  | CAxfrFirstSoa s, Soa x => if s =? soa_serial x then inl CDone else inr (false, CError)
+  | CAxfrFirstSoa s, Other _ => inl st
+  | CIxfrInit, Soa x => inl (CIxfrFirstSoa (soa_serial x))
+  | CIxfrInit, Other _ => inr (false, CError)
+  | CIxfrFirstSoa s, Soa x => if s =? soa_serial x then inl CDone else inl (CIxfrFirstDiffSoa s)
+  | CIxfrFirstSoa s, Other _ => inl (CAxfrFirstSoa s)
+  | CIxfrFirstDiffSoa s, Soa _ => inl (CIxfrSecondDiffSoa s)
+  | CIxfrFirstDiffSoa s, Other _ => inl st
+  | CIxfrSecondDiffSoa s, Soa x => if s =? soa_serial x then inl CDone else inl (CIxfrFirstDiffSoa s)
+  | CIxfrSecondDiffSoa s, Other _ => inl st
+  | CDone, _ => inr (false, CError)
+  | CError, _ => inr (false, CError)     (* panic!("should not be here"): excluded by the entry check *)
+  end.
+
+Fixpoint client_items (st : cstate) (items : list item) : bool * cstate :=
+  match items with
+  | [] =>
+      match st with
+      | CAxfrInit | CIxfrInit => (false, CError)
+      | CIxfrFirstSoa _ => (true, CDone)
+      | CDone => (true, CDone)
+      | _ => (false, st)
+      end
+  | Bad :: _ => (true, CError)
+  | Rec r :: rest =>
+      match client_rec st r with
+      | inl st' => client_items st' rest
+      | inr res => res
+      end
+  end.
+
+Definition client_msg (st : cstate) (m : msg) : bool * cstate :=
+  match st with
+  | CDone => (false, CError)
+  | CError => (false, CError)
+  | _ => client_items st (m_items m)
+  end.
+
+(* what the requester sees (Transport::demux_reply): per message Ok(message) when
+   is_answer (every return of check_stream except the ones into the Error
+   state) or Err(WrongReplyForQuery); after an eof the stream is closed and
+   later messages are dropped.  Result: the is_answer flags, and whether the
+   stream was closed by an eof. *)
+Definition is_cerror (st : cstate) : bool := match st with CError => true | _ => false end.
+
+Fixpoint client_stream (st : cstate) (ms : list msg) : list bool * bool :=
+  match ms with
+  | [] => ([], false)
+  | m :: rest =>
+      let '(eof, st') := client_msg st m in
+      let ok := negb (is_cerror st') in
+      if eof then ([ok], true)
+      else let '(l, e) := client_stream st' rest in (ok :: l, e)
+  end.
+
+Definition client_init (q : N) : cstate := if q =? qtype_axfr then CAxfrInit else CIxfrInit.
+
+(* ---- sender side as functions: net/server/middleware/xfr/{service,axfr,ixfr,
+   responder,batcher}.rs and net/server/batcher.rs ----
+   ZoneFunneler: the SOA read from the snapshot, every RRset of the walk except
+   the SOA, the SOA again.  DiffFunneler: the zone SOA, per diff the removed SOA,
+   the removed RRsets except the SOA, the added SOA, the added RRsets except the
+   SOA, then the zone SOA again (= ixfr_seq).  A zone without SOA is SERVFAIL. *)
+Definition memN (x : N) (l : list N) : bool := existsb (N.eqb x) l.
+
+Definition keys_of (z : zone) : list N :=
+  flat_map (fun r => match r with Other k => [k] | Soa _ => [] end) z.
+
+Definition sender_axfr (z : zone) : option (list rr) :=
+  match z_first_soa z with
+  | Some s => Some (axfr_seq s (keys_of z))
+  | None => None
+  end.
+
+(* the difference between two versions as the zone reports it (set difference
+   per RRset, SOA bracketing) *)
+Definition mk_diff (v v' : N * list N) : diff :=
+  mkDiff (fst v) (filter (fun k => negb (memN k (snd v'))) (snd v))
+         (fst v') (filter (fun k => negb (memN k (snd v))) (snd v')).
+
+Fixpoint mk_diffs (vs : list (N * list N)) : list diff :=
+  match vs with
+  | v :: ((v' :: _) as rest) => mk_diff v v' :: mk_diffs rest
+  | _ => []
+  end.
+
+Definition zone_of (v : N * list N) : zone := Soa (fst v) :: map Other (snd v).
+
+Definition sender_ixfr (vs : list (N * list N)) : list rr :=
+  ixfr_seq (fst (last vs (0, []))) (mk_diffs vs).
+
+(* CallbackBatcher::push / XfrRrBatcher: records are pushed into the current
+   message while they fit ([size], [limit] abstract the octet accounting of the
+   message builder and the push limit); when a push fails on a non-empty message
+   it is sent and the record pushed into a fresh one (Retry); a record that does
+   not fit an empty message is a PushError (9); with a hard record limit the
+   message is sent when it holds that many records (compatibility mode: 1). *)
+Fixpoint batch_go (size : rr -> N) (limit : N) (hard : option N)
+    (cur : list rr) (cursz : N) (rs : list rr) : outcome (list (list rr)) :=
+  match rs with
+  | [] => Ok (match cur with [] => [] | _ => [rev cur] end)
+  | r :: rest =>
+      let fits_here := cursz + size r <=? limit in
+      let '(pre, cur0, sz0, ok) :=
+        if fits_here then ([], cur, cursz, true)
+        else match cur with
+             | [] => ([], cur, cursz, false)
+             | _ => ([rev cur], [], 0, size r <=? limit)
+             end in
+      if ok then
+        let cur' := r :: cur0 in
+        let sz' := sz0 + size r in
+        if (match hard with Some h => N.of_nat (length cur') =? h | None => false end) then
+          do t <- batch_go size limit hard [] 0 rest; Ok (pre ++ rev cur' :: t)
+        else
+          do t <- batch_go size limit hard cur' sz' rest; Ok (pre ++ t)
+      else Err 9
+  end.
+
+(* BatchingRrResponder::run: hard_rr_limit = Some(1) in compatibility mode, which
+   service.rs passes on for AXFR questions only (T1: sender_compat_axfr_only,
+   compat_rr_limit) *)
+Definition sender_hard (compat : bool) (q : N) : option N :=
+  if compat && ((q =? qtype_axfr) || negb sender_compat_axfr_only)
+  then Some compat_rr_limit else None.
+
+Definition batch (size : rr -> N) (limit : N) (hard : option N) (rs : list rr) :=
+  batch_go size limit hard [] 0 rs.
+
+(* every response copies the question (start_answer), QR set, NOERROR *)
+Definition sender_msgs (q : N) (chunks : list (list rr)) : list msg :=
+  map (fun c => mkMsg (mkHdr true opcode_query rcode_noerror false 1 (N.of_nat (length c)) 0 (Some q))
+                      (map Rec c)) chunks.
+
 (* ---- diff capture: zonetree/in_memory/write.rs WriteNode::{update_rrset,
    remove_rrset, remove_all}, WriteZone::commit (SOA bracketing),
    zonetree/types.rs InMemoryZoneDiffBuilder::{add,remove,build}, driven by
@@ -344,7 +492,6 @@ Fixpoint s_remove (k : N) (st : store) : store :=
   end.
 Definition s_set (k : N) (v : rrs) (st : store) : store := (k, v) :: s_remove k st.
 
-Definition memN (x : N) (l : list N) : bool := existsb (N.eqb x) l.
 Fixpoint list_eqb (a b : list N) : bool :=
   match a, b with
   | [], [] => true
@@ -446,9 +593,87 @@ Definition apply_zdiff (c : store) (d : store * store) : store :=
 
 Definition d_start (pub : store) : dstate := mkD pub pub [] [].
 
+(* a diff is a pair of maps keyed by (owner, type): applying it to a content,
+   key by key (removed records first, then added ones with the TTL of the
+   added RRset) *)
+Definition rrs_data (o : option rrs) : list N := match o with Some v => snd v | None => [] end.
+
+Definition applied_at (k : N) (pub rem add : store) : option rrs :=
+  let base :=
+    match s_get k pub with
+    | Some v => match s_get k rem with
+                | Some r => rrs_minus v (snd r)
+                | None => Some v
+                end
+    | None => None
+    end in
+  match s_get k add with
+  | Some a => Some (fst a, rrs_data base ++ filter (fun x => negb (memN x (rrs_data base))) (snd a))
+  | None => base
+  end.
+
+(* histories outside the three known defect classes: no DeleteAllRecords, every
+   record operation keeps the published TTL of its RRset, deletes a record that
+   is published and still there, or adds a record that is neither published nor
+   there (so nothing is deleted and re-added, no order-only change) *)
+Definition good_op (o : dop) (st : dstate) : bool :=
+  match o with
+  | DAdd k d t =>
+      negb (k =? 0) && negb (memN d (rrs_data (s_get k (ds_work st))))
+      && negb (memN d (rrs_data (s_get k (ds_pub st))))
+      && (match s_get k (ds_pub st) with Some v => fst v =? t | None => true end)
+  | DDel k d t =>
+      negb (k =? 0) && memN d (rrs_data (s_get k (ds_work st)))
+      && memN d (rrs_data (s_get k (ds_pub st)))
+      && (match s_get k (ds_pub st) with Some v => fst v =? t | None => true end)
+  | DSoa _ _ => true
+  | _ => false
+  end.
+
+Fixpoint good_body (ops : list dop) (st : dstate) : bool :=
+  match ops with
+  | [] => true
+  | o :: rest => good_op o st && good_body rest (fst (d_step o st))
+  end.
+
+Definition pub_ok (pub : store) : bool :=
+  forallb (fun e => negb (is_nil (snd (snd e)))) pub
+  && (match s_get 0 pub with Some (_, [_]) => true | _ => false end).
+
+(* one batch as the updater runs it: [BeginBatchDelete] body Finished *)
+Definition good_history (pub : store) (ops : list dop) : bool :=
+  let ops' := match ops with DBatch :: r => r | _ => ops end in
+  match rev ops' with
+  | DFinish _ _ :: rbody => pub_ok pub && good_body (rev rbody) (d_start pub)
+  | _ => false
+  end.
+
+(* the boolean form of "the reported diff applies" over the keys that occur *)
+Definition rrs_same (a b : option rrs) : bool :=
+  match a, b with
+  | None, None => true
+  | Some (t, d), Some (t', d') =>
+      (t =? t') && forallb (fun x => memN x d') d && forallb (fun x => memN x d) d'
+  | _, _ => false
+  end.
+Definition diff_applies_b (pub : store) (ops : list dop) : bool :=
+  let '(st, ds) := d_run ops (d_start pub) in
+  match last ds None with
+  | None => true
+  | Some (rem, add) =>
+      forallb (fun k => rrs_same (applied_at k pub rem add) (s_get k (ds_work st)))
+              (map fst pub ++ map fst (ds_work st) ++ map fst rem ++ map fst add)
+  end.
+
+
 (* ---- entry points for the correspondence driver ---- *)
 Definition c10_run (ms : list msg) : list upd * status := run None ms.
 Definition c10_apply (z0 : zone) (us : list upd) : outcome ustate := u_apply_all updater_checks_batch_soa us (u_start z0).
 Definition c10_transfers (z0 : zone) (uss : list (list upd)) : outcome (list zone) := u_transfers updater_checks_batch_soa uss z0.
+Definition c10_diff_good (pub : store) (ops : list dop) : bool := good_history pub ops.
+Definition c10_diff_applies (pub : store) (ops : list dop) : bool := diff_applies_b pub ops.
+Definition c10_client (q : N) (ms : list msg) : list bool * bool := client_stream (client_init q) ms.
+Definition c10_sender_axfr (v : N * list N) : option (list rr) := sender_axfr (zone_of v).
+Definition c10_sender_ixfr (vs : list (N * list N)) : list rr := sender_ixfr vs.
 Definition c10_check (first : bool) (h : hdr) : bool := check_response first h.
 Definition c10_diff (pub : store) (ops : list dop) : list (option (store * store)) := snd (d_run ops (d_start pub)).
